@@ -39,6 +39,9 @@ func Hold(s *AbsState, base int64) []HoldEntry {
 	}
 	for o, m := range s.Bal {
 		for c, v := range m {
+			if o == "pool:"+EthSupplyAddr && c != "OLT" {
+				continue // the wrapped-supply counter is a mirror of the circulation (checked by C15)
+			}
 			add(o, c, "bal", v)
 		}
 	}
